@@ -163,6 +163,8 @@ class ConcurrentExecutor(ABC, Generic[CallableType, ResultType]):
         # Event-driven state tracking for when the executor is done
         self._completion_event = threading.Event()
         self._suspend_exception: SuspendExecution | None = None
+        # A BaseException that is not a branch outcome (e.g. checkpointing failed): re-raised by execute()
+        self._fatal_exception: BaseException | None = None
 
         # ExecutionCounters will keep track of completion criteria and on-going counters
         min_successful = self.completion_config.min_successful or len(self.executables)
@@ -203,10 +205,18 @@ class ConcurrentExecutor(ABC, Generic[CallableType, ResultType]):
         ]
         self._completion_event.clear()
         self._suspend_exception = None
+        self._fatal_exception = None
 
         def resubmitter(executable_with_state: ExecutableWithState) -> None:
             """Resubmit a timed suspended task."""
-            execution_state.create_checkpoint()
+            try:
+                execution_state.create_checkpoint()
+            except BaseException as e:  # noqa: BLE001
+                # e.g. BackgroundThreadError: this runs in the timer thread, so hand the
+                # error to the thread blocked in execute() instead of dying silently
+                self._fatal_exception = e
+                self._completion_event.set()
+                return
             submit_task(executable_with_state)
 
         thread_executor = ThreadPoolExecutor(max_workers=max_workers)
@@ -239,6 +249,10 @@ class ConcurrentExecutor(ABC, Generic[CallableType, ResultType]):
                 # Cancel futures that haven't started yet
                 for future in futures:
                     future.cancel()
+
+                # A branch or the timer thread hit a fatal error (e.g. checkpointing failed)
+                if self._fatal_exception:
+                    raise self._fatal_exception
 
                 # Suspend execution if everything done and at least one of the tasks raised a suspend exception.
                 if self._suspend_exception:
@@ -325,6 +339,12 @@ class ConcurrentExecutor(ABC, Generic[CallableType, ResultType]):
         except Exception as e:  # noqa: BLE001
             exe_state.fail(e)
             self.counters.fail_task()
+        except BaseException as e:  # noqa: BLE001
+            # e.g. BackgroundThreadError: not an outcome of the branch. This callback runs in
+            # a pool thread, so wake the thread blocked in execute(), which re-raises it.
+            self._fatal_exception = e
+            self._completion_event.set()
+            return
 
         # Check if execution should complete or suspend
         if self.counters.should_complete():
